@@ -123,7 +123,59 @@ type Prop struct {
 type EnumEnv struct {
 	Name    string   // enum name in the file
 	Prefix  string   // effective prefix
-	Options []string // declared option names (short)
+	Options []string // declared option names (short or prefixed), without an explicit UNSPECIFIED
+	// how the enum is written in the source
+	ExplicitPrefix bool     // prefix = "..." is written
+	Unspecified    string   // explicit first option standing for 0 ("" = none)
+	Desc           string   // description of the enum
+	OptDescs       []string // description per option (parallel to Options)
+	UnspecDesc     string
+}
+
+// EnumDecl renders the declaration as a Coq enum_decl.
+func (e EnumEnv) DeclCoq() string {
+	var opts []string
+	if e.Unspecified != "" {
+		opts = append(opts, fmt.Sprintf("(%s, %s)", vh.BytesTerm(e.Unspecified), vh.BytesTerm(e.UnspecDesc)))
+	}
+	for i, o := range e.Options {
+		d := ""
+		if i < len(e.OptDescs) {
+			d = e.OptDescs[i]
+		}
+		opts = append(opts, fmt.Sprintf("(%s, %s)", vh.BytesTerm(o), vh.BytesTerm(d)))
+	}
+	return fmt.Sprintf("(ED %s %s [%s])", vh.BytesTerm(e.Desc), vh.BytesTerm(e.Prefix), strings.Join(opts, ";"))
+}
+
+func (e EnumEnv) J5S() string {
+	var sb strings.Builder
+	fmt.Fprintf(&sb, "enum %s {\n", e.Name)
+	if e.Desc != "" {
+		fmt.Fprintf(&sb, "\t| %s\n\n", e.Desc)
+	}
+	if e.ExplicitPrefix {
+		fmt.Fprintf(&sb, "\tprefix = %s\n", q(e.Prefix))
+	}
+	opt := func(name, desc string) {
+		if desc == "" {
+			fmt.Fprintf(&sb, "\toption %s\n", name)
+		} else {
+			fmt.Fprintf(&sb, "\toption %s {\n\t\t| %s\n\t}\n", name, desc)
+		}
+	}
+	if e.Unspecified != "" {
+		opt(e.Unspecified, e.UnspecDesc)
+	}
+	for i, o := range e.Options {
+		d := ""
+		if i < len(e.OptDescs) {
+			d = e.OptDescs[i]
+		}
+		opt(o, d)
+	}
+	sb.WriteString("}\n")
+	return sb.String()
 }
 
 // ---------------------------------------------------------------- Coq terms
@@ -501,19 +553,25 @@ func (p Prop) J5S(enum EnumEnv) string {
 // File renders one compile unit: package foo.v1, the enum, Bar, Choice and the
 // object under test.
 func File(enum EnumEnv, objName, objDesc string, props []Prop) string {
+	return FileRoot("object", enum, objName, objDesc, props)
+}
+
+// FileRoot: kind is "object" (properties are fields) or "oneof" (properties are options).
+func FileRoot(kind string, enum EnumEnv, objName, objDesc string, props []Prop) string {
 	var sb strings.Builder
 	sb.WriteString("package foo.v1\n\n")
-	fmt.Fprintf(&sb, "enum %s {\n", enum.Name)
-	for _, o := range enum.Options {
-		fmt.Fprintf(&sb, "\toption %s\n", o)
-	}
-	sb.WriteString("}\n\nobject Bar {\n\tfield x string\n}\n\noneof Choice {\n\toption a string\n\toption b integer:INT32\n}\n\n")
-	fmt.Fprintf(&sb, "object %s {\n", objName)
+	sb.WriteString(enum.J5S())
+	sb.WriteString("\nobject Bar {\n\tfield x string\n}\n\noneof Choice {\n\toption a string\n\toption b integer:INT32\n}\n\n")
+	fmt.Fprintf(&sb, "%s %s {\n", kind, objName)
 	if objDesc != "" {
 		fmt.Fprintf(&sb, "\t| %s\n\n", objDesc)
 	}
 	for _, p := range props {
-		sb.WriteString(p.J5S(enum))
+		txt := p.J5S(enum)
+		if kind == "oneof" {
+			txt = strings.Replace(txt, "\tfield ", "\toption ", 1)
+		}
+		sb.WriteString(txt)
 		sb.WriteString("\n")
 	}
 	sb.WriteString("}\n")
